@@ -44,39 +44,25 @@ package core
 //@   ensures [C19:request-served-by-named-chain-no-hash] err == nil && len(old(mdHash(metadata))) == 0 ==> bp == dd.beaconProcesses[canonID(old(mdID(metadata)))] && has(dd.beaconProcesses, canonID(old(mdID(metadata))))
 //@   ensures [C19:request-served-by-named-chain-unknown-hash] err == nil && len(old(mdHash(metadata))) != 0 && !has(dd.chainHashes, hexOf(old(mdHash(metadata)))) ==> bp == dd.beaconProcesses[canonID(old(mdID(metadata)))] && bp.group == nil
 
-// chainHashOf(g): hex chain hash string of the chain described by group g (NewChainInfo(g).HashString()).
-//@ ghost chainHashOf(ref) string
-//@ ghost infoGroup(ref) ref
-
-//@ extern github.com/drand/drand/v2/common/chain.NewChainInfo(g) (i)
-//@   trusted verified under C17 (chain hash reads only chain parameters of g); here only its identity is needed
-//@   modifies nothing
-//@   ensures i != nil && infoGroup(i) == g
-
-//@ extern (*github.com/drand/drand/v2/common/chain.Info).HashString(i) (s)
-//@   trusted hex of Info.Hash(), see C17
-//@   modifies nothing
-//@   ensures s == chainHashOf(infoGroup(i))
-
 //@ func (*DrandDaemon).RemoveBeaconProcess(dd, ctx, beaconID, bp)
 //@   props C19 C14
 //@   flags lockcheck
-//@   requires bp != nil
-//@   modifies mapof(dd.beaconProcesses), mapof(dd.chainHashes)
+//@   requires bp != nil && (bp.group != nil ==> bp.group.Scheme != nil && bp.group.PublicKey != nil && common.validPeriod(bp.group.Period))
+//@   modifies mapof(dd.beaconProcesses), mapof(dd.chainHashes), bp.group.GenesisSeed, tr(all), hkind(all)
 //@   ensures [C19:removed-id-stops-resolving] !has(dd.beaconProcesses, canonID(beaconID))
-//@   ensures [C19:removed-hash-stops-resolving] bp.group != nil ==> !has(dd.chainHashes, chainHashOf(bp.group))
+//@   ensures [C19:removed-hash-stops-resolving] bp.group != nil ==> !has(dd.chainHashes, chain.groupHashStr(bp.group))
 //@   ensures [C19:removed-default-alias-stops-resolving] isDefaultID(beaconID) ==> !has(dd.chainHashes, "default")
 //@   ensures [C19:other-ids-keep-resolving] forall k string :: k != canonID(beaconID) ==> has(dd.beaconProcesses, k) == old(has(dd.beaconProcesses, k))
-//@   ensures [C19:other-hashes-keep-resolving] forall k string :: !(bp.group != nil && k == chainHashOf(bp.group)) && !(bp.group == nil && k == "") && !(isDefaultID(beaconID) && k == "default") ==> has(dd.chainHashes, k) == old(has(dd.chainHashes, k))
+//@   ensures [C19:other-hashes-keep-resolving] forall k string :: !(bp.group != nil && k == chain.groupHashStr(bp.group)) && !(bp.group == nil && k == "") && !(isDefaultID(beaconID) && k == "default") ==> has(dd.chainHashes, k) == old(has(dd.chainHashes, k))
 
 //@ func (*DrandDaemon).AddBeaconHandler(dd, ctx, beaconID, bp)
 //@   props C19 C14
 //@   flags lockcheck
-//@   requires bp != nil && dd.chainHashes != nil && dd.handler != nil && dd.handler.beacons != nil
-//@   modifies mapof(dd.chainHashes), mapof(dd.handler.beacons)
-//@   ensures [C19:hash-resolves-to-added-id] has(dd.chainHashes, chainHashOf(bp.group)) && dd.chainHashes[chainHashOf(bp.group)] == beaconID
+//@   requires bp != nil && dd.chainHashes != nil && dd.handler != nil && dd.handler.beacons != nil && bp.group != nil && bp.group.Scheme != nil && bp.group.PublicKey != nil && common.validPeriod(bp.group.Period)
+//@   modifies mapof(dd.chainHashes), mapof(dd.handler.beacons), bp.group.GenesisSeed, tr(all), hkind(all)
+//@   ensures [C19:hash-resolves-to-added-id] has(dd.chainHashes, chain.groupHashStr(bp.group)) && dd.chainHashes[chain.groupHashStr(bp.group)] == beaconID
 //@   ensures [C19:default-alias-only-for-default-id] isDefaultID(beaconID) ==> has(dd.chainHashes, "default") && dd.chainHashes["default"] == beaconID
-//@   ensures [C19:add-leaves-other-hashes] forall k string :: k != chainHashOf(bp.group) && !(isDefaultID(beaconID) && k == "default") ==> has(dd.chainHashes, k) == old(has(dd.chainHashes, k)) && (has(dd.chainHashes, k) ==> dd.chainHashes[k] == old(dd.chainHashes[k]))
+//@   ensures [C19:add-leaves-other-hashes] forall k string :: k != chain.groupHashStr(bp.group) && !(isDefaultID(beaconID) && k == "default") ==> has(dd.chainHashes, k) == old(has(dd.chainHashes, k)) && (has(dd.chainHashes, k) ==> dd.chainHashes[k] == old(dd.chainHashes[k]))
 //@   ensures [C19:add-leaves-process-table] forall k string :: has(dd.beaconProcesses, k) == old(has(dd.beaconProcesses, k))
 
 // ---- C19: every public / protocol endpoint hands the request to the process its metadata names -------
